@@ -1005,6 +1005,12 @@ func (s *Service) runWith(wid string, cb func()) {
 	vhook("rw.checked", wid)
 
 	s.mu.Lock()
+	// The service may have been closed since the state was checked.
+	// A nil workqueue signals that the service is closing.
+	if s.workqueue == nil {
+		s.mu.Unlock()
+		return
+	}
 	// Get current work queue for the resource
 	var w *work
 	var ok bool
